@@ -4,6 +4,7 @@
 From Coq Require Import List ZArith NArith Bool.
 From RRSS Require Import Base.Outcome Base.Chars Base.F64 Base.F64Text Exec.Ops Front.Ast Front.Token Front.Lexer Front.Parser Front.Grammar.
 From RRSS Require Import Proofs.ParseSound Proofs.GrammarLaws Proofs.LiteralLaws.
+From RRSS Require Import Proofs.LexNumbers.
 Import ListNotations.
 Open Scope N_scope.
 
@@ -67,6 +68,11 @@ Example C02_example :
   | _, _ => False
   end.
 Proof. vm_compute. repeat split; try exact I; repeat constructor. Qed.
+
+(** ... and this holds for every number token of every source at once: its value is a parsed numeral *)
+Theorem C02_number_tokens_carry_numerals :
+  forall prof src pts, lex prof src = Ok pts -> Forall (fun pt => num_ok (pt_tok pt)) pts.
+Proof. exact lex_numbers. Qed.
 
 Print Assumptions C02_expression_in_grammar.
 Print Assumptions C02_program_in_grammar.
